@@ -114,7 +114,7 @@ pub fn check(sh: &Shared, c: &Case) -> Check {
 }
 
 fn fragment(fi: usize) -> BoxedStrategy<String> {
-    let t = gen::task_with(gen::term(gen::TermOpts { depth: 2, size: 6, ..gen::TermOpts::main(fi) }));
+    let t = gen::task_with(gen::term(gen::TermOpts { depth: 2, size: 6, deep: false, ..gen::TermOpts::main(fi) }));
     (t, 1u8..31)
         .prop_map(move |(td, mask)| {
             let task = build_task(&td);
@@ -149,11 +149,10 @@ fn fragment(fi: usize) -> BoxedStrategy<String> {
 
 fn input(fi: usize) -> BoxedStrategy<(String, String)> {
     let small = gen::TermOpts { depth: 2, size: 8, ..gen::TermOpts::main(fi) };
-    let f = fmts::e(fi);
     prop_oneof![
-        12 => gen::term(small).prop_map(move |d| ("term".to_string(), f.format_term(&build_raw(&d)))),
-        18 => gen::sentence_with(gen::term(small)).prop_map(move |s| ("sentence".to_string(), f.format_sentence(&build_sentence(&s)))),
-        18 => gen::task_with(gen::term(small)).prop_map(move |t| ("task".to_string(), f.format_task(&build_task(&t)))),
+        12 => gen::term(small).prop_map(move |d| ("term".to_string(), strgen::text_of(fi, &ND::Term(d)))),
+        18 => gen::sentence_with(gen::term(small)).prop_map(move |s| ("sentence".to_string(), strgen::text_of(fi, &ND::Sentence(s)))),
+        18 => gen::task_with(gen::term(small)).prop_map(move |t| ("task".to_string(), strgen::text_of(fi, &ND::Task(t)))),
         30 => fragment(fi).prop_map(|s| ("fragment".to_string(), s)),
         14 => strgen::mutated(fi).prop_map(|s| ("malformed".to_string(), s)),
         4 => strgen::soup(fi).prop_map(|s| ("soup".to_string(), s)),
@@ -167,11 +166,10 @@ fn input(fi: usize) -> BoxedStrategy<(String, String)> {
 /// aligned so that whatever the earlier input left behind at those positions would complete the
 /// keyword (stale buffers / cursors must not matter)
 fn aligned_pair(fi: usize) -> BoxedStrategy<Vec<(String, String)>> {
-    let f = fmts::e(fi);
-    let small = gen::TermOpts { depth: 2, size: 6, ..gen::TermOpts::main(fi) };
+    let small = gen::TermOpts { depth: 2, size: 6, deep: false, ..gen::TermOpts::main(fi) };
     (gen::sentence_with(gen::term(small)), any::<u16>(), 1usize..=3, gen::name_char(fi, gen::NameProfile::Main))
         .prop_map(move |(s, pick, keep, filler)| {
-            let long = f.format_sentence(&build_sentence(&s));
+            let long = strgen::text_of(fi, &ND::Sentence(s));
             let chars: Vec<char> = long.chars().collect();
             // all positions where some keyword starts
             let kws: Vec<Vec<char>> = fmts::e_keywords(fi).iter().filter(|k| k.chars().count() >= 2).map(|k| k.chars().collect()).collect();
